@@ -22,11 +22,19 @@ def nontrivial(c):
     return any(v.form != 1 for v in c.get("vars", []))
 
 
+
 FIN_MAGS = [(1, 0), (5, -1), (25, -1), (15, -1), (10**19 - 1, 0), (10**19 + 1, -3), (123456789 * 10**30 + 5, -20),
             (9, 2**31 - 2), (1, -2**31), (999, 2**31 - 4), (10**40 + 1, -2**31)]
 
+# sums must not align operands across the whole exponent range (the library allocates
+# |exponent gap|/19 words): per case all finite operands of an additive operation come
+# from one of these groups
+ADD_GROUPS = [[m for m in FIN_MAGS if abs(m[1]) < 100],
+              [m for m in FIN_MAGS if m[1] > 2**30],
+              [m for m in FIN_MAGS if m[1] < -2**30]]
 
-def cls_values(rng, k):
+
+def cls_values(rng, k, mags=None):
     """one representative Dv for class k in 0..5: -Inf,-fin,-0,+0,+fin,+Inf"""
     if k == 0:
         return inf(1, prec=rng.choice([0, 5]), mode=rng.randint(0, 5))
@@ -36,7 +44,7 @@ def cls_values(rng, k):
         return zero(1, prec=rng.choice([0, 7]), mode=rng.randint(0, 5))
     if k == 3:
         return zero(0, prec=rng.choice([0, 7]), mode=rng.randint(0, 5))
-    c, e = rng.choice(FIN_MAGS)
+    c, e = rng.choice(mags or FIN_MAGS)
     nd = ndigits(c)
     e = common.clamp_exp(e + nd) - nd
     return fin(c, e, neg=1 if k == 1 else 0, mode=rng.randint(0, 5), pad=rng.choice([0, 1]))
@@ -49,13 +57,15 @@ def gen(rng, tier):
             for cx, cy in itertools.product(range(6), repeat=2):
                 for mode in range(6):
                     z = C01.recv(rng, prec=rng.choice([0, 1, 3, 20, 34]), mode=mode)
-                    x, y = cls_values(rng, cx), cls_values(rng, cy)
+                    mags = rng.choice(ADD_GROUPS) if op in ("Add", "Sub") else None
+                    x, y = cls_values(rng, cx, mags), cls_values(rng, cy, mags)
                     shape = rng.choice(["0 1 2", "0 1 2", "1 1 2", "2 1 2"])
                     yield dict(family="class-table-" + op, vars=[z, x, y], ops=["%s %s" % (op, shape)])
         for cx, cy, cu in itertools.product(range(6), repeat=3):
             for mode in (0, 4, rng.randint(1, 5)):
                 z = C01.recv(rng, prec=rng.choice([0, 2, 20]), mode=mode)
-                x, y, u = cls_values(rng, cx), cls_values(rng, cy), cls_values(rng, cu)
+                mags = ADD_GROUPS[0]
+                x, y, u = cls_values(rng, cx, mags), cls_values(rng, cy, mags), cls_values(rng, cu, mags)
                 shape = rng.choice(["0 1 2 3", "0 1 2 3", "3 1 2 3", "1 1 2 3", "2 1 2 3"])
                 yield dict(family="class-table-FMA", vars=[z, x, y, u], ops=["FMA " + shape])
         for op in ("Neg", "Abs", "Set"):
@@ -66,7 +76,7 @@ def gen(rng, tier):
                     yield dict(family="class-table-unary", vars=[z, x], ops=["%s %s" % (op, rng.choice(["0 1", "1 1"]))])
     # x + x, x - x with the same variable twice
     for _ in range(100 * reps):
-        x = cls_values(rng, rng.randint(0, 5))
+        x = cls_values(rng, rng.randint(0, 5), ADD_GROUPS[0])
         z = C01.recv(rng, mode=rng.randint(0, 5))
         op = rng.choice(["Add 0 1 1", "Sub 0 1 1", "Mul 0 1 1", "Quo 0 1 1", "Add 1 1 1", "Sub 1 1 1", "FMA 0 1 1 1", "FMA 1 1 1 1"])
         yield dict(family="same-operand", vars=[z, x], ops=[op])
